@@ -20,7 +20,8 @@ EXTENDS Integers, Sequences, FiniteSets, TLC, Json
 CONSTANTS CidStates,     \* subset of {"valid", "rejected", "missing"}
           FileKinds,     \* subset of the kinds below
           MaxFiles,
-          Untils,        \* subset of {"absent", "all", "0", "k2", "k9"}  ("all" = -1)
+          Untils,        \* subset of {"absent", "all", "0", "k2", "k9", "huge"}  ("all" = -1; "huge" = 2^63, beyond every file and
+                         \* beyond what a C long holds)
           ArgStates,     \* subset of {"ok", "none", "unknownOption", "untilTooSmall", "untilNotNumber", "badLogLevel",
                          \*            "untilWithoutValue", "pluginsWithoutValue", "optionBetweenCidAndData"}
                          \* ("optionBetweenCidAndData": argparse takes CID-FILE and DATA-FILEs as one group of positional
@@ -34,7 +35,7 @@ CONSTANTS CidStates,     \* subset of {"valid", "rejected", "missing"}
 BadAt(kind) == CASE kind = "accepted" -> 0 [] kind = "shares" -> 0 [] kind = "fieldRejected" -> 2 [] kind = "dupRejected" -> 3
                  [] kind = "lateDamage" -> 4 [] OTHER -> 0
 Unreadable(kind) == kind \in {"missing", "directory"}
-Limit(u) == CASE u = "absent" -> -1 [] u = "all" -> -1 [] u = "0" -> 0 [] u = "k2" -> 2 [] u = "k9" -> 9
+Limit(u) == CASE u = "absent" -> -1 [] u = "all" -> -1 [] u = "0" -> 0 [] u = "k2" -> 2 [] u = "k9" -> 9 [] u = "huge" -> 99
 Rejected(kind, u) == BadAt(kind) > 0 /\ (Limit(u) = -1 \/ BadAt(kind) <= Limit(u))
 
 VARIABLES args, cid, files, until, deco,   \* the command line
